@@ -45,18 +45,25 @@ def mostOf (better : Num → Num → Bool) : List (Option Num) → Option Num
       | some r, some v => some (if better v r then v else r)
       | _, _ => none) (some v)
 
+/-- `wrapOp(op)(x, y)` of `numericRangeArithmetic` on two bounds; `none` stands for
+`UnknownVal(Number)`, both as an operand (the bound of a dynamically typed operand)
+and as the answer (a panic of `op` is caught and becomes an unknown number).  For
+Add and Subtract a call on an unknown bound short-circuits to an unknown number
+again, whatever the other bound is. -/
+def cornerPlain (op : Num → Num → Res Num) (x y : Option Num) : Option Num :=
+  match x, y with
+  | some x, some y => (match op x y with | .ok r => some r | _ => none)
+  | _, _ => none
+
 /-- `numericRangeArithmetic(op, a, b)` applied to an unrefined unknown number,
-then `RefineNotNull()` -/
-def rangeArith (op : Num → Num → Res Num) (a b : Value) : Res Value := do
+then `RefineNotNull()`; `corner` is `wrapOp(op)` on two bounds -/
+def rangeArithC (corner : Option Num → Option Num → Option Num) (a b : Value) : Res Value := do
   let ra ← a.range
   let rb ← b.range
   let aMin ← ra.numLower
   let aMax ← ra.numUpper
   let bMin ← rb.numLower
   let bMax ← rb.numUpper
-  let corner := fun (x y : Option Num) => match x, y with
-    | some x, some y => (match op x y with | .ok r => some r | _ => none)
-    | _, _ => none
   let cs := [corner aMin bMin, corner aMin bMax, corner aMax bMin, corner aMax bMax]
   let newMin := mostOf (fun v r => Num.cmp v r < 0) cs
   let newMax := mostOf (fun v r => Num.cmp v r > 0) cs
@@ -67,6 +74,8 @@ def rangeArith (op : Num → Num → Res Num) (a b : Value) : Res Value := do
     | some m => if Num.rawEqual m (.inf false) then none else some m
     | none => none
   pure (numRangeResult lo hi)
+
+def rangeArith (op : Num → Num → Res Num) (a b : Value) : Res Value := rangeArithC (cornerPlain op) a b
 
 def unkNumNotNull : Value := ⟨.number, .unk (.num .f none none)⟩
 
@@ -88,12 +97,36 @@ def subU (a b : Value) : Res Value := do
   | _ => rangeArith Num.sub a b
 def sub := binMarks subU
 
-/-- Multiply; the harness never passes the `cty.Zero` singleton itself, so the
-pointer-identity shortcut `val == Zero` is not taken -/
+/-- `v.RawEquals(cty.Zero)` for an unmarked operand: same type (so not the dynamic
+pseudo-type), known, not null, and a number of sign 0 (`rawNumberEqual` compares
+`Sign()` first, so either zero at any precision) -/
+def rawEqualsZero (v : Value) : Bool :=
+  v.ty.isNumber && (match v.v with | .n x => x.isZero | _ => false)
+
+/-- `cty.Zero` = `big.NewFloat(0)`: a positive zero at precision 53 -/
+def zeroNum : Num := .fin false 0 0 53
+def zeroVal : Value := ⟨.number, .n zeroNum⟩
+
+/-- `wrapOp(Value.Multiply)(x, y)` on two bounds (`none` = `UnknownVal(Number)`): with
+an unknown bound the inner call is itself a short circuit and takes Multiply's zero
+exit when the other bound is a zero (`other.RawEquals(Zero)`); otherwise it answers
+an unknown number -/
+def cornerMul (x y : Option Num) : Option Num :=
+  match x, y with
+  | some x, some y => (match Num.mulCty x y with | .ok r => some r | _ => none)
+  | some x, none => if x.isZero then some zeroNum else none
+  | none, some y => if y.isZero then some zeroNum else none
+  | none, none => none
+
+/-- Multiply. On a short circuit (an unknown or dynamically typed operand):
+`if val.RawEquals(Zero) || other.RawEquals(Zero) { return Zero }` before the range
+arithmetic (/repo 6d2fa5e; it was the pointer comparison `val == Zero` before, which
+no harness case could take).  The corner products of the range arithmetic are
+calls of this same method on the bounds: `cornerMul`. -/
 def mulU (a b : Value) : Res Value := do
   match ← typeCheck .number [a, b] with
   | .none => pure (numVal (← Num.mulCty (← asNum a) (← asNum b)))
-  | _ => rangeArith Num.mulCty a b
+  | _ => if rawEqualsZero a || rawEqualsZero b then pure zeroVal else rangeArithC cornerMul a b
 def mul := binMarks mulU
 
 def divU (a b : Value) : Res Value := do
@@ -102,7 +135,8 @@ def divU (a b : Value) : Res Value := do
   | _ => pure unkNumNotNull
 def div := binMarks divU
 
-/-- Modulo; infinities are the package singletons in every harness case -/
+/-- Modulo; `val.RawEquals(PositiveInfinity) || …` (/repo 572b8ba; pointer
+comparisons with the package-level infinities before): any infinite number -/
 def modU (a b : Value) : Res Value := do
   match ← typeCheck .number [a, b] with
   | .none =>
